@@ -496,7 +496,9 @@ func (x *Exec) execRange(s *ast.RangeStmt, st *State) []*State {
 			out = append(out, c)
 			continue
 		}
-		out = append(out, x.execRange1(s, sp, ord, c)...)
+		outs := x.execRange1(s, sp, ord, c)
+		x.checkAfter(sp, outs, ord)
+		out = append(out, outs...)
 	}
 	return out
 }
